@@ -120,9 +120,8 @@ func parseAll(defs []string) ([]*proj.SR, string) {
 // All are computed on freshly parsed SRs through the exported API:
 //   init i        error (or none) of SR.Transformers()
 //   inv/fwd i a b the projection's inverse/forward
-//   dt i j a b    datumTransform(datum_i, datum_j, a, b, 0): obtained from a transformer between copies of
-//                 the two SRs whose projection is the registered alias "identity" with ToMeter 1, no prime
-//                 meridian and default axis, so that everything except datumTransform is the identity.
+//   dt i j a b z  datumTransform(datum_i, datum_j, a, b, z) through the hook proj.VerifDatumTransform
+//                 (/repo/proj/verif_hook.go, build tag verif; the only unexported piece)
 
 type oracle struct {
 	defs []string
@@ -191,23 +190,21 @@ func (o *oracle) proj(which string, i int, a, b float64) string {
 	})
 }
 
-func (o *oracle) dt(i, j int, a, b float64) string {
-	return o.memo(fmt.Sprintf("dt %d %d %s %s", i, j, vproto.F2H(a), vproto.F2H(b)), func() string {
-		s, d := *o.fresh(i), *o.fresh(j)
-		for k, c := range []*proj.SR{&s, &d} {
-			c.Name, c.ToMeter, c.FromGreenwich, c.Axis = "identity", 1, math.NaN(), "enu"
-			c.Title = fmt.Sprintf("verif-datum-oracle-%d", k)
-		}
-		var t proj.Transformer
-		var err error
-		pan := vproto.Safe(func() { t, err = s.NewTransform(&d) })
+func (o *oracle) dt(i, j int, a, b, z float64) string {
+	return o.memo(fmt.Sprintf("dt %d %d %s %s %s", i, j, vproto.F2H(a), vproto.F2H(b), vproto.F2H(z)), func() string {
+		var r string
+		pan := vproto.Safe(func() {
+			x, y, z2, err := proj.VerifDatumTransform(o.fresh(i), o.fresh(j), a, b, z)
+			if err != nil {
+				r = "err " + san(err.Error())
+				return
+			}
+			r = "ok " + vproto.F2H(x) + " " + vproto.F2H(y) + " " + vproto.F2H(z2)
+		})
 		if pan != "" {
 			return "panic " + pan
 		}
-		if err != nil || t == nil {
-			return "unavailable"
-		}
-		return callRes(t, a, b)
+		return r
 	})
 }
 
@@ -220,6 +217,18 @@ func okXY(res string) (float64, float64, bool) {
 	a, _ := vproto.H2F(f[1])
 	b, _ := vproto.H2F(f[2])
 	return a, b, true
+}
+
+// okXYZ parses "ok <x> <y> <z>"
+func okXYZ(res string) (float64, float64, float64, bool) {
+	f := strings.Fields(res)
+	if len(f) != 4 || f[0] != "ok" {
+		return 0, 0, 0, false
+	}
+	a, _ := vproto.H2F(f[1])
+	b, _ := vproto.H2F(f[2])
+	c, _ := vproto.H2F(f[3])
+	return a, b, c, true
 }
 
 const deg2rad = 0.01745329251994329577
@@ -253,14 +262,14 @@ func axisFlip(axis string, p *[2]float64) bool {
 // shadowNoHop follows the data flow of the transformer closure (without the WGS84 hop) only to find the
 // points at which the oracles have to be evaluated; the Lean model recomputes every step itself and
 // reports a missing oracle entry as a DIFF, so an error here cannot hide a model/code difference.
-func (o *oracle) shadowNoHop(info []srInfo, s, d int, x, y float64) (float64, float64, bool) {
+func (o *oracle) shadowNoHop(info []srInfo, s, d int, x, y, z float64) (float64, float64, float64, bool) {
 	if !strings.HasPrefix(o.init(s), "ok") || !strings.HasPrefix(o.init(d), "ok") {
-		return 0, 0, false
+		return 0, 0, 0, false
 	}
 	p := [2]float64{x, y}
 	S, D := info[s], info[d]
 	if S.axis != "enu" && !axisFlip(S.axis, &p) {
-		return 0, 0, false
+		return 0, 0, 0, false
 	}
 	if S.longlat {
 		p[0] *= deg2rad
@@ -270,16 +279,16 @@ func (o *oracle) shadowNoHop(info []srInfo, s, d int, x, y float64) (float64, fl
 		p[1] *= S.toMeter
 		a, b, ok := okXY(o.proj("inv", s, p[0], p[1]))
 		if !ok {
-			return 0, 0, false
+			return 0, 0, 0, false
 		}
 		p[0], p[1] = a, b
 	}
 	if !math.IsNaN(S.fg) {
 		p[0] += S.fg
 	}
-	a, b, ok := okXY(o.dt(s, d, p[0], p[1]))
+	a, b, z, ok := okXYZ(o.dt(s, d, p[0], p[1], z))
 	if !ok {
-		return 0, 0, false
+		return 0, 0, 0, false
 	}
 	p[0], p[1] = a, b
 	if !math.IsNaN(D.fg) {
@@ -291,28 +300,28 @@ func (o *oracle) shadowNoHop(info []srInfo, s, d int, x, y float64) (float64, fl
 	} else {
 		a, b, ok := okXY(o.proj("fwd", d, p[0], p[1]))
 		if !ok {
-			return 0, 0, false
+			return 0, 0, 0, false
 		}
 		p[0], p[1] = a/D.toMeter, b/D.toMeter
 	}
 	if D.axis != "enu" && !axisFlip(D.axis, &p) {
-		return 0, 0, false
+		return 0, 0, 0, false
 	}
-	return p[0], p[1], true
+	return p[0], p[1], z, true
 }
 
 func notWGS(a, b srInfo) bool { return (a.dtype == 1 || a.dtype == 2) && !b.wgsCode }
 
 func (o *oracle) shadow(info []srInfo, s, d, wgs int, x, y float64) {
 	if notWGS(info[s], info[d]) || notWGS(info[d], info[s]) {
-		a, b, ok := o.shadowNoHop(info, s, wgs, x, y)
+		a, b, z, ok := o.shadowNoHop(info, s, wgs, x, y, 0)
 		if !ok {
 			return
 		}
-		o.shadowNoHop(info, wgs, d, a, b)
+		o.shadowNoHop(info, wgs, d, a, b, z)
 		return
 	}
-	o.shadowNoHop(info, s, d, x, y)
+	o.shadowNoHop(info, s, d, x, y, 0)
 }
 
 // ---- impl of a history line -------------------------------------------------------------------------
